@@ -335,14 +335,3 @@ pub open spec fn tuple_edges<T: PartialOrd + Send, A>(v: Seq<(T, T)>) -> Seq<Edg
     Seq::new(v.len(), |i: int| Edge { u: v[i].0, v: v[i].1, attributes: None, weight: f64_nan() })
 }
 
-// ---- case split used to verify add_edge (one Verus run per case) ----
-pub open spec fn add_edge_case<T: Eq + PartialOrd + Send + Sync, A: Clone>(g: Graph<T, A>, directed: bool, multi: bool) -> bool {
-    g.specs.directed == directed && g.specs.multi_edges == multi
-}
-
-// [C01.add_edge.cases_cover]
-pub proof fn lemma_add_edge_cases_cover<T: Eq + PartialOrd + Send + Sync, A: Clone>(g: Graph<T, A>)
-    ensures
-        add_edge_case(g, true, true) || add_edge_case(g, true, false) || add_edge_case(g, false, true) || add_edge_case(g, false, false),
-{
-}
